@@ -52,6 +52,20 @@ def seeded_table():
     n = len(rows)
     print("Totals: %d changes; caught on first evaluation %d; caught now %d.\n" % (
         n, sum(1 for r in rows if r[2]), sum(1 for r in rows if r[3] == "yes")))
+    per = {}
+    for name, m, first, now, chk, kinds in rows:
+        r = {"A": 1, "B": 1, "C": 2, "D": 2, "E": 3, "F": 3, "G": 4, "H": 4, "I": 5, "J": 5}.get(name[-1], 0)
+        t = per.setdefault(r, [0, 0, 0, 0])
+        t[0] += 1
+        t[1] += bool(first)
+        t[2] += now == "yes"
+        t[3] += now == "patch no longer applies"
+    print("| round | changes | caught on first evaluation | caught now (in /repo) | patch no longer applies |\n|---|---|---|---|---|")
+    for r in sorted(per):
+        print("| %d | %d | %d | %d | %d |" % (r, per[r][0], per[r][1], per[r][2], per[r][3]))
+    print("\nNot caught now and still applicable: " + (", ".join(
+        "%s (%s)" % (name, (m.get("in_repo_note") or "see meta.json")[:160]) for name, m, first, now, chk, kinds in rows
+        if now == "NO") or "none") + ".\n")
     print("| seed | change (summary) | needs | first | now | check | caught as |\n|---|---|---|---|---|---|---|")
     for name, m, first, now, chk, kinds in rows:
         print("| %s | %s | %s | %s | %s | %s | %s |" % (
